@@ -265,7 +265,7 @@ Definition seg_shrink (deleted : list N) (s : seg) : seg :=
 
 (* "Align sub segments" (Geometry.cpp:1272-1283): a range-for over segment.subSegments with a
    separate counter j that is only advanced when the body does not [continue]:
-     if (j == 0) sub.startIndex = segment.startIndex;
+     if (j == 0) sub.startIndex = segment.startIndex + numOwnPrimitives * 3;   ([segstart] below)
      if (j + 1 >= segment.numSubSegments) continue;
      subSegments[j + 1].startIndex = sub.startIndex + sub.numPrimitives * 3;  j++;
    [todo] = the elements the range-for has still to visit; [subs] = the whole vector. *)
@@ -295,7 +295,13 @@ Fixpoint align_subs (todo : nat) (pos : N) (segstart nsub : N) (subs : list subs
     end
   end.
 
-(* "Align segments" (Geometry.cpp:1269-1292), same shape with the counter i *)
+(* uint32_t numOwnPrimitives = segment.numPrimitives;
+   for (auto& subSegment : segment.subSegments) numOwnPrimitives -= subSegment.numPrimitives; *)
+Definition seg_own (num : N) (subs : list subseg) : N :=
+  fold_left (fun o ss => wrap32 (o + 4294967296 - wrap32 (ss_num ss))) subs num.
+
+(* "Align segments", same shape with the counter i; the first sub-segment of a segment starts
+   after the triangles the segment owns itself: segment.startIndex + numOwnPrimitives * 3 *)
 Fixpoint align_segs (todo : nat) (pos : N) (nseg : N) (segs : list seg) (i : N) : res (list seg) :=
   match todo with
   | O => Ok segs
@@ -303,7 +309,9 @@ Fixpoint align_segs (todo : nat) (pos : N) (nseg : N) (segs : list seg) (i : N) 
     match vget segs pos with
     | None => Fault
     | Some cur =>
-      bind (align_subs (length (sg_subs cur)) 0 (sg_start cur) (sg_nsub cur) (sg_subs cur) 0) (fun subs' =>
+      bind (align_subs (length (sg_subs cur)) 0
+                       (wrap32 (sg_start cur + seg_own (sg_num cur) (sg_subs cur) * 3))
+                       (sg_nsub cur) (sg_subs cur) 0) (fun subs' =>
       let cur' := mkSeg (sg_start cur) (sg_num cur) (sg_nsub cur) subs' in
       match vset segs pos cur' with
       | None => Fault
@@ -360,10 +368,10 @@ Definition bs_delete (b : bsshape) (idx : list N) : res bsshape :=
   bind (bs_base_delete b idx) (fun b1 =>
   match bs_kind b1 with
   | BSPlain => Ok b1
-  | BSDynamic =>                                       (* Geometry.cpp:1547-1552 *)
+  | BSDynamic =>                                       (* Geometry.cpp: dynamicDataSize = uint32(size) * 16 *)
     bind (erase_model 16 0 (bs_dyn b1) idx) (fun dd =>
     Ok (mkBs (bs_kind b1) (bs_nv b1) (bs_vdata b1) (bs_nt b1) (bs_tris b1) (bs_deleted b1)
-             dd (wrap32 (vlen dd)) (bs_lod0 b1) (bs_lod1 b1) (bs_lod2 b1)
+             dd (wrap32 (wrap32 (vlen dd) * 16)) (bs_lod0 b1) (bs_lod1 b1) (bs_lod2 b1)
              (bs_segn b1) (bs_ssen b1) (bs_sse b1)))
   | BSMeshLOD =>                                       (* Geometry.cpp:1522-1529 *)
     Ok (mkBs (bs_kind b1) (bs_nv b1) (bs_vdata b1) (bs_nt b1) (bs_tris b1) (bs_deleted b1)
